@@ -10,7 +10,12 @@ application jobs -> process sequence -> commands), both `next` recursions, `proc
 the six starting strategies with the load cap and stable ties, `possible_identifiers`, `on_event` / `timed_out` / `check`,
 the starting failure strategies, `fail_command` with its re-entrant path (`force_process_state` ->
 `on_process_state_event` -> `starter.on_event`), `stop/restart_application` with the deferred starts of `Stopper.after`,
-descending pickup, only-where-running, stop time-outs.  Python recursion is bounded by fuel.
+descending pickup, only-where-running, stop time-outs; the whole-cluster entry points `Starter.start_applications` /
+`Stopper.stop_applications`; the distribution rules (`ApplicationStartJobs.before`, `distribute_to_single_instance`,
+`distribute_to_single_node`, `strategy.get_node`, `ApplicationStatus.possible_identifiers` / `possible_node_identifiers` /
+`get_start_sequence_expected_load`, the non-ALL_INSTANCES branch of `process_job`); `Starter.start_process` with
+`ApplicationJobs.add_commands` / `on_command_added`.  Python recursion is bounded by fuel; a Python
+exception is an explicit result (`W.exc`): nothing is emitted after it.
 -/
 
 namespace Supv.Cmd
@@ -48,10 +53,20 @@ structure PCfg where
   stopwaitsecs : Nat := 5
   deriving Repr, Inhabited
 
+/-- `ttypes.DistributionRules` -/
+inductive Dist | all | singleInstance | singleNode deriving DecidableEq, Repr, Inhabited
+def Dist.ofCode : Nat → Dist
+  | 0 => .all | 1 => .singleInstance | _ => .singleNode
+def Dist.code : Dist → Nat
+  | .all => 0 | .singleInstance => 1 | .singleNode => 2
+
 structure ACfg where
   startSeq : Nat
   strategy : Strategy
   stopSeq : Nat := 0
+  distribution : Dist := .all
+  /-- `ApplicationRules.identifiers`: none = wildcard; some l = mapper.filter(rules.identifiers) (declared order) -/
+  idents : Option (List Nat) := none
   deriving Repr, Inhabited
 
 structure Command where
@@ -61,7 +76,7 @@ structure Command where
   target : Option Nat := none
   reqCounter : Nat := 0
   waitTicks : Nat := 2
-  deriving Repr, Inhabited
+  deriving Repr, Inhabited, DecidableEq
 
 structure AppJobs where
   app : Nat
@@ -70,7 +85,11 @@ structure AppJobs where
   planned : List (Nat × List Command)
   current : List Command := []
   stopRequest : Bool := false
-  deriving Repr, Inhabited
+  /-- `ApplicationStartJobs.starting_strategy`: the strategy the application start was requested with -/
+  strategy : Strategy := .config
+  /-- `ApplicationStartJobs.identifiers`: the instances selected for a non-distributed application -/
+  identifiers : List Nat := []
+  deriving Repr, Inhabited, DecidableEq
 
 structure StopCommand where
   proc : Nat
@@ -88,7 +107,7 @@ structure StopJobs where
   deriving Repr, Inhabited
 
 inductive Out where
-  | start (p i : Nat) (run : Nat) (strat : Strategy)
+  | start (p i : Nat) (run : Nat) (strat : Strategy) (single : Bool)   -- single: a `start_process` command (ignore_wait_exit)
   | force (p : Nat) (s : PState) (noResource : Bool) (run : Nat)   -- run: rank of the application start concerned (999: none)
   | stop (p i : Nat)
   deriving Repr
@@ -116,11 +135,17 @@ structure W where
   modelEvents : List (Nat × Nat × PState) := []   -- `StarterModel.event_list`
   now : Nat := 0
   out : List Out := []
+  /-- (process, instance) pairs whose payload has a non-zero `stop` date (a STOPPED / EXITED / UNKNOWN report was received since
+      the payload was loaded): read by `ApplicationStatus.never_started` -/
+  stopMark : List (Nat × Nat) := []
+  /-- the Python exception that aborted the operation, if any (nothing is emitted after it) -/
+  exc : Option String := none
   deriving Repr, Inhabited
 
 abbrev M := StateM W
 
-def emit (o : Out) : M Unit := modify fun w => { w with out := w.out ++ [o] }
+def emit (o : Out) : M Unit := modify fun w => if w.exc.isSome then w else { w with out := w.out ++ [o] }
+def raise (cls : String) : M Unit := modify fun w => if w.exc.isSome then w else { w with exc := some cls }
 def proc (p : Nat) : M Proc := do return (← get).procs.getD p {}
 def setProc (p : Nat) (x : Proc) : M Unit := modify fun w => { w with procs := w.procs.set p x }
 def pcfg (p : Nat) : M PCfg := do return (← get).pcfg.getD p default
@@ -276,6 +301,116 @@ def startPlan (w : W) (a : Nat) (strat : Strategy) : List (Nat × List Command) 
   let seqs := (ps.map (fun p => (w.pcfg.getD p default).startSeq)).eraseDups
   seqs.map (fun s => (s, (ps.filter (fun p => (w.pcfg.getD p default).startSeq = s)).map (fun p => ({ proc := p, strategy := strat } : Command))))
 
+/-! ## Distribution rules: whole-application placement -/
+
+/-- the Supervisor of instance `i` knows program `p` and has it enabled (`identifier in info_map and not info['disabled']`) -/
+def enabledOn (w : W) (p i : Nat) : Bool :=
+  match getInfo (w.procs.getD p {}).infos i with | some v => !v.disabled | none => false
+
+/-- the application's identifiers rule: every instance for the wildcard, else the declared list (`mapper.filter`) -/
+def appRuleIdentifiers (w : W) (a : Nat) : List Nat :=
+  match (w.acfg.getD a default).idents with | none => List.range w.ninst | some l => l
+
+/-- `ApplicationStatus.possible_identifiers`: in the order of the rule, the instances on which EVERY process of the application
+    is known and enabled -/
+def appPossibleIdentifiers (w : W) (a : Nat) : List Nat :=
+  let ps := appProcs w a
+  if ps.isEmpty then [] else (appRuleIdentifiers w a).filter (fun i => ps.all (fun p => enabledOn w p i))
+
+/-- `ApplicationStatus.possible_node_identifiers`: in the order of the rule, the instances that know (enabled) at least one
+    process of the application and whose node has, for every process, an instance permitted by the rule that knows it -/
+def appPossibleNodeIdentifiers (w : W) (a : Nat) : List Nat :=
+  let ps := appProcs w a
+  let filtered := appRuleIdentifiers w a
+  filtered.filter (fun i =>
+    let fnode := filtered.filter (fun x => w.node.getD x 0 = w.node.getD i 0)
+    ps.all (fun p => fnode.any (fun x => enabledOn w p x)) && ps.any (fun p => enabledOn w p i))
+
+/-- `ApplicationStatus.get_start_sequence_expected_load`: the processes with a positive start_sequence, whatever their state -/
+def appStartLoad (w : W) (a : Nat) : Nat :=
+  ((appProcs w a).filter (fun p => (w.pcfg.getD p default).startSeq > 0)).foldl (fun acc p => acc + (w.pcfg.getD p default).load) 0
+
+/-- `ProcessStartCommand.update_identifier`: `self.get_instance_info()['startsecs']` raises `TypeError` when the instance does
+    not know the program (`info_map.get` returns None) -/
+def updateIdentifier (w : W) (c : Command) (i : Nat) : Res Command :=
+  match getInfo (w.procs.getD c.proc {}).infos i with
+  | some _ => .ok { c with target := some i, waitTicks := waitTicksOf (w.pcfg.getD c.proc default).startsecs }
+  | none => .err "TypeError"
+
+def mapRes {α β} (f : α → Res β) : List α → Res (List β)
+  | [] => .ok []
+  | a :: t => match f a with
+    | .err e => .err e
+    | .ok b => match mapRes f t with
+      | .err e => .err e
+      | .ok bs => .ok (b :: bs)
+
+/-- apply a (possibly raising) update to every planned command of the job, in the order of the plan -/
+def mapGroup (f : Command → Res Command) (g : Nat × List Command) : Res (Nat × List Command) :=
+  match mapRes f g.2 with | .ok l => .ok (g.1, l) | .err e => .err e
+def mapPlanned (f : Command → Res Command) (j : AppJobs) : Res AppJobs :=
+  match mapRes (mapGroup f) j.planned with
+  | .ok pl => .ok { j with planned := pl }
+  | .err e => .err e
+
+/-- `strategy.get_node`: the node of the instance the strategy chooses -/
+def getNode (w : W) (strat : Strategy) (idents : List Nat) (load : Nat) (req : List (Nat × Nat)) : Option Nat :=
+  (chooseInstance w strat idents load req).map (fun i => w.node.getD i 0)
+
+/-- `ApplicationStartJobs.distribute_to_single_instance` -/
+def distributeSingleInstance (w : W) (j : AppJobs) : Res AppJobs :=
+  match chooseInstance w j.strategy (appPossibleIdentifiers w j.app) (appStartLoad w j.app) (jobLoadRequests w j) with
+  | some i => mapPlanned (fun c => updateIdentifier w c i) { j with identifiers := [i] }
+  | none => .ok j
+
+/-- `distribute_to_single_node`, first half: the node is chosen for the whole application load (`get_node`); `self.identifiers`
+    = the application's candidates that run on that node, in the order of the application's rule -/
+def singleNodeIds (w : W) (j : AppJobs) : List Nat :=
+  let idents := appPossibleNodeIdentifiers w j.app
+  match getNode w j.strategy idents (appStartLoad w j.app) (jobLoadRequests w j) with
+  | some nd => idents.filter (fun i => i < w.ninst ∧ w.node.getD i 0 = nd)
+  | none => []
+
+/-- `ApplicationStartJobs.get_applicable_identifiers`: the selected instances whose Supervisor knows the program and has it
+    enabled (the instances of a node may not share the same Supervisor configuration) -/
+def applicableIdentifiers (w : W) (ids : List Nat) (p : Nat) : List Nat :=
+  ids.filter (fun i => enabledOn w p i)
+
+/-- `distribute_to_single_node`, the body of the loop: an instance of the node for one command; `update_identifier(None)` raises
+    `KeyError` (`context.instances[None]`), `update_identifier` of an instance that does not know the program `TypeError` -/
+def nodeCommand (w : W) (strat : Strategy) (ids : List Nat) (req : List (Nat × Nat)) (c : Command) : Res Command :=
+  match chooseInstance w strat (applicableIdentifiers w ids c.proc) (w.pcfg.getD c.proc default).load req with
+  | some i => updateIdentifier w c i
+  | none => .ok c
+
+/-- `ApplicationStartJobs.distribute_to_single_node`: the node is chosen for the whole application load; then every command
+    gets an instance of that node among the application's candidates, with the load requests computed ONCE before the loop -/
+def distributeSingleNode (w : W) (j : AppJobs) : Res AppJobs :=
+  let j1 := { j with identifiers := singleNodeIds w j }
+  if j1.identifiers.isEmpty then .ok j1
+  else mapPlanned (nodeCommand w j.strategy j1.identifiers (jobLoadRequests w j1)) j1
+
+/-- `ApplicationStartJobs.before` -/
+def jobBefore (w : W) (j : AppJobs) : Res AppJobs :=
+  match (w.acfg.getD j.app default).distribution with
+  | .singleNode => distributeSingleNode w j
+  | .singleInstance => distributeSingleInstance w j
+  | .all => .ok j
+
+/-- the target `process_job` uses for a stopped process: chosen NOW by the command's strategy among the program's candidates
+    for a distributed application (`jobCurrent`: the requests of the job object being processed); for a non-distributed
+    application whatever `before` decided when the job was picked up, with no re-check of any kind -/
+def jobTarget (w : W) (app : Nat) (jobCurrent : List Command) (c : Command) : Command :=
+  if (w.acfg.getD app default).distribution = .all then
+    let cfgp := w.pcfg.getD c.proc default
+    -- `self.get_load_requests()` of the job OBJECT being processed (it may have been dropped from the Starter by a
+    -- re-entrant `Commander.next`: its own command list is what counts); planned commands have no target here
+    let req := jobLoadRequests w { app := app, planned := [], current := jobCurrent }
+    match chooseInstance w c.strategy (possibleIdentifiers w c.proc) cfgp.load req with
+    | some i => { c with target := some i, waitTicks := waitTicksOf cfgp.startsecs }
+    | none => c
+  else c
+
 /-- Stopper.store_application -/
 def storeStopApplication (a : Nat) : M Unit := do
   let w ← get
@@ -296,7 +431,7 @@ def storeApplication (a : Nat) (strat : Strategy) : M Unit := do
   let planned := startPlan w a strat
   if !planned.isEmpty then
     let prio := (w.acfg.getD a default).startSeq
-    let job : AppJobs := { app := a, runId := w.jobCount, planned := planned }
+    let job : AppJobs := { app := a, runId := w.jobCount, planned := planned, strategy := strat }
     let rec ins : List (Nat × List AppJobs) → List (Nat × List AppJobs)
       | [] => [(prio, [job])]
       | (k, js) :: t => if k = prio then
@@ -332,16 +467,11 @@ def processJob (fuel : Nat) (app : Nat) (runId : Nat) (jobCurrent : List Command
     let w ← get
     let x := w.procs.getD c.proc {}
     if procStopped x then
-      -- `self.get_load_requests()` of the job OBJECT being processed (it may have been dropped from the Starter by a
-      -- re-entrant `Commander.next`: its own command list is what counts); planned commands have no target here
-      let req := jobLoadRequests w { app := app, planned := [], current := jobCurrent }
       let cfgp := w.pcfg.getD c.proc default
-      let c := match chooseInstance w c.strategy (possibleIdentifiers w c.proc) cfgp.load req with
-        | some i => { c with target := some i, waitTicks := waitTicksOf cfgp.startsecs }
-        | none => c
+      let c := jobTarget w app jobCurrent c
       match c.target with
       | some i =>
-        emit (.start c.proc i runId c.strategy)
+        emit (.start c.proc i runId c.strategy c.ignoreWaitExit)
         if w.live.isSome then
           -- `ProcessStartCommandModel.start`: the mock process is listed on the instance and the events of a normal start
           -- are queued (STARTING, RUNNING, then EXITED with wait_exit)
@@ -403,6 +533,14 @@ def starterNext (fuel : Nat) : M Unit := do
         let (grp, rest) := popKey k w.planned
         modify fun w => { w with planned := rest, current := grp.getD [] }
         for j in grp.getD [] do
+          -- application_job.before() on the job object just picked up
+          let w ← get
+          match w.current.find? (fun x => x.app = j.app ∧ x.runId = j.runId) with
+          | some jj =>
+            match jobBefore w jj with
+            | .ok jj' => modify fun w => { w with current := w.current.map (fun x => if x.app = j.app ∧ x.runId = j.runId then jj' else x) }
+            | .err e => raise e
+          | none => pure ()
           jobNext fuel j.app
         starterNext fuel
 
@@ -661,6 +799,115 @@ def restartApplication (fuel : Nat) (a : Nat) (strat : Strategy) : M Unit := do
     stopApplication fuel a
   else startApplication fuel a strat
 
+/-- `ApplicationStatus.stopped()` (displayed states) as a function of the world -/
+def appStoppedW (w : W) (a : Nat) : Bool :=
+  (appProcs w a).all (fun p => let d := displayed (w.procs.getD p {}); d ≠ .running ∧ d ≠ .starting ∧ d ≠ .backoff ∧ d ≠ .stopping)
+
+/-- `ApplicationStatus.never_started`: every payload of every process is STOPPED with a zero `stop` date -/
+def neverStarted (w : W) (a : Nat) : Bool :=
+  (appProcs w a).all (fun p => (w.procs.getD p {}).infos.all (fun kv => kv.2.state == .stopped && !w.stopMark.contains (p, kv.1)))
+
+/-- `ApplicationStatus.update_status_required`: (major_failure, minor_failure); every process of a managed application is in
+    its start sequence dictionary -/
+def appFailures (w : W) (a : Nat) : Bool × Bool :=
+  let ps := appProcs w a
+  let failed (p : Nat) : Bool := let x := w.procs.getD p {}; let d := displayed x
+    d == .fatal || d == .unknown || (d == .exited && !x.expectedExit)
+  let req (p : Nat) : Bool := (w.pcfg.getD p default).required
+  let major0 := ps.any (fun p => failed p && req p)
+  let minor0 := ps.any (fun p => failed p && !req p)
+  let possible := ps.any (fun p => !failed p && displayed (w.procs.getD p {}) == .stopped && req p)
+  let major := major0 || (!appStoppedW w a && possible)
+  (major, minor0 && !major)
+
+/-- the payload of (p, i) is replaced by a handshake snapshot (`add_info`): its `stop` date is the snapshot's (zero) -/
+def clearStopMark (p i : Nat) : M Unit := modify fun w => { w with stopMark := w.stopMark.filter (· ≠ (p, i)) }
+
+/-- `update_info`: STOPPED / EXITED / UNKNOWN set `info['stop']` (FATAL does not) -/
+def noteStopMark (p i : Nat) (s : PState) : M Unit :=
+  if s = .stopped ∨ s = .exited ∨ s = .unknown then
+    modify fun w => { w with stopMark := if w.stopMark.contains (p, i) then w.stopMark else w.stopMark ++ [(p, i)] }
+  else pure ()
+
+/-- the applications `Stopper.stop_applications` stores: those with a running process (storing a stop plan changes no process) -/
+def stopAllApps (w : W) : List Nat := (List.range w.acfg.length).filter (hasRunningProcesses w)
+
+/-- `Stopper.stop_applications`: every application with a running process is stored, then ONE `next()` -/
+def stopApplications (fuel : Nat) : M Unit := do
+  for a in stopAllApps (← get) do storeStopApplication a
+  stopperNext fuel
+
+/-- the applications `Starter.start_applications` stores (storing a start plan changes no process): a strictly positive
+    start_sequence, and never started or in (major / minor) failure -/
+def autoStartApps (w : W) : List Nat :=
+  (List.range w.acfg.length).filter (fun a =>
+    0 < (w.acfg.getD a default).startSeq && (neverStarted w a || (appFailures w a).1 || (appFailures w a).2))
+
+/-- `Starter.start_applications`: the applications with a positive start_sequence that were never started or are in failure
+    are stored with their default strategy, then ONE `next()`.  Returns (job rank, application) of what was stored. -/
+def startApplications (fuel : Nat) : M (List (Nat × Nat)) := do
+  let mut stored : List (Nat × Nat) := []
+  for a in autoStartApps (← get) do
+    let w ← get
+    storeApplication a (w.acfg.getD a default).strategy
+    if (← get).jobCount > w.jobCount then stored := stored ++ [(w.jobCount, a)]
+  starterNext fuel
+  return stored
+
+/-! ## Single process start (`Starter.start_process`) -/
+
+/-- `ApplicationJobs.get_current_command` / `get_planned_command` of a NEW command (its identifier is None: any command of the
+    same process matches) -/
+def hasCommand (j : AppJobs) (p : Nat) : Bool := j.current.any (·.proc = p) || ((j.planned.map (·.2)).flatten).any (·.proc = p)
+
+/-- `planned_jobs.setdefault(seq, []).append(command)` -/
+def appendPlanned (pl : List (Nat × List Command)) (seq : Nat) (c : Command) : List (Nat × List Command) :=
+  if pl.any (·.1 = seq) then pl.map (fun g => if g.1 = seq then (g.1, g.2 ++ [c]) else g) else pl ++ [(seq, [c])]
+
+/-- `ApplicationStartJobs.on_command_added`: in a non-distributed application whose instances have been selected, the new command
+    gets one of them, chosen by the strategy of the JOB for the load of the program and the load requests of the job -/
+def onCommandAdded (w : W) (j : AppJobs) (c : Command) : Res Command :=
+  if (w.acfg.getD j.app default).distribution = .all then .ok c
+  else if j.identifiers.isEmpty then .ok c
+  else match chooseInstance w j.strategy (applicableIdentifiers w j.identifiers c.proc) (w.pcfg.getD c.proc default).load (jobLoadRequests w j) with
+    | some i => updateIdentifier w c i
+    | none => .ok c
+
+/-- `ApplicationJobs.add_commands` for one command: a process already planned or in progress is not considered again -/
+def addCommand (w : W) (j : AppJobs) (seq : Nat) (c : Command) : Res AppJobs :=
+  if hasCommand j c.proc then .ok j else
+  match onCommandAdded w j c with
+  | .ok c' => .ok { j with planned := appendPlanned j.planned seq c' }
+  | .err e => .err e
+
+/-- `Starter.start_process` (trigger = True): the command joins the job of its application if there is one (current jobs first,
+    then planned ones), else a job of its own is planned at the application's start_sequence -/
+def startProcess (fuel : Nat) (p : Nat) (strat : Strategy) : M Unit := do
+  let w ← get
+  if procStopped (w.procs.getD p {}) then
+    let cfgp := w.pcfg.getD p default
+    let c : Command := { proc := p, strategy := strat, ignoreWaitExit := true }
+    let upd (j : AppJobs) : M AppJobs := do
+      match addCommand w j cfgp.startSeq c with
+      | .ok j' => return j'
+      | .err e => raise e; return j
+    match w.current.find? (·.app = cfgp.app) with
+    | some j =>
+      let j' ← upd j
+      modify fun w => { w with current := w.current.map (fun x => if x.app = j.app ∧ x.runId = j.runId then j' else x) }
+    | none =>
+      match ((w.planned.map (·.2)).flatten).find? (·.app = cfgp.app) with
+      | some j =>
+        let j' ← upd j
+        modify fun w => { w with planned := w.planned.map (fun kjs => (kjs.1, kjs.2.map (fun x => if x.app = j.app ∧ x.runId = j.runId then j' else x))) }
+      | none =>
+        let prio := (w.acfg.getD cfgp.app default).startSeq
+        let job : AppJobs := { app := cfgp.app, runId := w.jobCount, planned := [(cfgp.startSeq, [c])], strategy := strat }
+        modify fun w => { w with jobCount := w.jobCount + 1,
+                                 planned := if w.planned.any (·.1 = prio) then w.planned.map (fun kjs => if kjs.1 = prio then (kjs.1, kjs.2 ++ [job]) else kjs)
+                                            else w.planned ++ [(prio, [job])] }
+    starterNext fuel
+
 def stopperInProgress : M Bool := do
   let w ← get
   return !w.splanned.isEmpty || !w.scurrent.isEmpty
@@ -688,7 +935,7 @@ def feedModel (fuel : Nat) : Nat → M Unit
 
 /-- the placement: for every process for which a request was emitted, the instance asked -/
 def placements (outs : List Out) : List (Nat × Nat) :=
-  outs.filterMap (fun o => match o with | .start p i _ _ => some (p, i) | _ => none)
+  outs.filterMap (fun o => match o with | .start p i _ _ _ => some (p, i) | _ => none)
 
 /-- `StarterModel.test_start_application`: prediction on mock copies, the world itself is left untouched (the result is a
     value; nothing of the prediction run survives) -/
@@ -708,8 +955,8 @@ def normalStart (fuel : Nat) : Nat → List Out → M Unit
     -- the next start request not yet played
     match (w.out.drop seen.length).find? (fun o => match o with | .start .. => true | _ => false) with
     | none => pure ()
-    | some (.start p i _ _) =>
-      let upto := seen.length + ((w.out.drop seen.length).takeWhile (fun o => match o with | .start q j _ _ => !(q == p && j == i) | _ => true)).length + 1
+    | some (.start p i _ _ _) =>
+      let upto := seen.length + ((w.out.drop seen.length).takeWhile (fun o => match o with | .start q j _ _ _ => !(q == p && j == i) | _ => true)).length + 1
       let seen' := w.out.take upto
       let cfgp := w.pcfg.getD p default
       for st in [PState.starting, PState.running] ++ (if cfgp.waitExit then [PState.exited] else []) do
